@@ -102,10 +102,10 @@ def run(ctx):
     # ---- archives: members count towards LIMIT like ordinary rows, filtered or not, ordered or not ----
     from . import c19, fstree
     ajobs = []
-    for i in range(6 if ctx.tier == "quick" else 120):
+    for i in range(16 if ctx.tier == "quick" else 160):
         root, zips, corrupts = c19.gen_case(ctx, 1000 + i)
         rb = os.path.basename(root)
-        for where in ("", "where size > 5", "where name like '%a%'", "where size < 100"):
+        for where in ("", "where size > 5", "where name like '%a%'", "where size < 100", "where size = 0", "where size >= 300"):
             for ob in ("", " order by size, path"):
                 ajobs.append((rb, where, ob))
 
